@@ -50,6 +50,9 @@ type world struct {
 	listInnerSum  func(batch, n int) []uint64
 	listReplicate func(batch, n int) []uint64
 	listTrace     func(logN int) []uint64
+	// advertised single elements (scheme wrappers): what a user generates keys from
+	elRotation func(k int) uint64
+	elOrderTwo func() uint64 // CKKS complex conjugation / BGV row swap
 }
 
 // ops is the per-leaf evaluator view (keys for exactly one list).
@@ -100,6 +103,8 @@ func ckksWorld(cf cklib.Cfg) *world {
 		w.listInnerSum = x.Params.GaloisElementsForInnerSum
 		w.listReplicate = x.Params.GaloisElementsForReplicate
 		w.listTrace = x.Params.GaloisElementsForTrace
+		w.elRotation = x.Params.GaloisElementForRotation
+		w.elOrderTwo = x.Params.GaloisElementForComplexConjugation
 	}
 	return w
 }
@@ -142,6 +147,8 @@ func bgvWorld(logN, np int, t uint64, pow2 int) *world {
 		w.listInnerSum = p.GaloisElementsForInnerSum
 		w.listReplicate = p.GaloisElementsForReplicate
 		w.listTrace = p.GaloisElementsForTrace
+		w.elRotation = p.GaloisElementForColRotation
+		w.elOrderTwo = p.GaloisElementForRowRotation
 	}
 	return w
 }
